@@ -291,12 +291,34 @@ class LineProc:
     """A driver process answering one line per request line.  A death is an
     observable outcome (`None`), after which the process is restarted."""
 
+    ASK_TIMEOUT = float(os.environ.get("VERIF_ASK_TIMEOUT", "180"))
+
     def __init__(self, argv, name):
         self.argv, self.name = argv, name
         self.p = None
         self.deaths = 0
+        self.hangs = 0
         self.stderr_tail = ""
+        self._deadline = None
+        self._hung = False
+        self._closed = False
         self.start()
+        import threading
+        threading.Thread(target=self._watchdog, daemon=True).start()
+
+    def _watchdog(self):
+        # a driver that does not answer (an endless loop in the code under test) is killed: the request is then
+        # answered `None` like a death, with stderr_tail saying so — a check never waits for ever
+        while not self._closed:
+            time.sleep(1.0)
+            d = self._deadline
+            if d is not None and time.time() > d:
+                self._hung = True
+                self._deadline = None
+                try:
+                    self.p.kill()
+                except Exception:
+                    pass
 
     def start(self):
         self.errf = open(os.path.join(CACHE, "%s.%d.stderr" % (self.name, os.getpid())), "w+")
@@ -304,17 +326,23 @@ class LineProc:
                                   stderr=self.errf, text=True, bufsize=1, env=ENV)
 
     def ask(self, line):
+        self._hung = False
+        self._deadline = time.time() + self.ASK_TIMEOUT
         try:
             self.p.stdin.write(line + "\n")
             self.p.stdin.flush()
             ans = self.p.stdout.readline()
         except (BrokenPipeError, OSError):
             ans = ""
+        self._deadline = None
         if ans == "":
             self.p.wait()
             self.deaths += 1
             self.errf.seek(0)
             self.stderr_tail = self.errf.read()[-2000:]
+            if self._hung:
+                self.hangs += 1
+                self.stderr_tail = "HANG: no answer within %d s, driver killed (request: %s)\n" % (self.ASK_TIMEOUT, line[:300]) + self.stderr_tail
             self._close_err()
             self.start()
             return None
@@ -329,6 +357,7 @@ class LineProc:
             pass
 
     def close(self):
+        self._closed = True
         try:
             self.p.stdin.close()
             self.p.wait(timeout=10)
